@@ -96,6 +96,22 @@ def deep(e):
     return out
 
 
+def unshare(e, seen=None):
+    """Histories only: squash_in / slide_in on a Concurrence insert the same object into every
+    voice.  The tree-as-value model has no shared references (hypothesis NoSharing), so later
+    occurrences of an object are replaced by copies before the next edit; first occurrences stay live."""
+    if seen is None:
+        seen = set()
+    if isinstance(e, C):
+        return
+    for i, c in enumerate(e):
+        if id(c) in seen:
+            c = c.copy()
+            list.__setitem__(e, i, c)
+        seen.add(id(c))
+        unshare(c, seen)
+
+
 def err(exc):
     return ["err", type(exc).__name__]
 
@@ -132,6 +148,19 @@ def T(n):
 def apply_op(t, op):
     """Returns (result event, extra observations)."""
     k = op[0]
+    if k == "child":
+        i = int(op[1])
+        if i < 0 or i >= len(t):
+            raise IndexError(i)
+        r, _ = apply_op(t[i], op[2])
+        if r is not t[i]:
+            t[i] = r
+        return t, []
+    if k == "set_dur":
+        if not isinstance(t, C):
+            raise AttributeError("set_dur on container")
+        t.duration = T(op[1])
+        return t, []
     if k == "cut_out":
         return t.cut_out(T(op[1]), T(op[2])), []
     if k == "cut_off":
@@ -228,6 +257,7 @@ def run(case):
         for op in case[2:]:
             try:
                 t, _ = apply_op(t, op)
+                unshare(t)
             except Exception as e:  # noqa
                 out.append(err(e))
                 break
@@ -239,6 +269,7 @@ def run(case):
         for op in case[2:]:
             try:
                 t, _ = apply_op(t, op)
+                unshare(t)
             except Exception as e:  # noqa
                 return ["c01", pre, err(e)]
         return ["c01", pre, ["post"] + deep(t), snap(t)]
